@@ -21,7 +21,7 @@ import re
 from ..astutil import dotted, src, walk_local, local_assignments, calls, dominating_guards, preceding_exit_guards, op_test, conjuncts
 from ..dispatch import dispatcher, operand_slots, exact_arm, binary_ops, unary_ops
 from ..logic import formula, And, Not, atom, TRUE, counterexample, implies
-from ..report import AnalysisError
+from ..report import AnalysisError, Frag
 
 # polynomial semantics of the reduction kinds: degree when every operand is a plain variable container
 CONTAINER_DEGREE = {"VectorSum": 1, "LinearCombination": 1, "DotProduct": 2, "QuadraticForm": 2, "MatrixSum": 1}
@@ -249,7 +249,7 @@ def _gkey(site):
 
 def _elements_loop_sound(arm):
     s = src(arm.body)
-    return "if d is None" in s and "return None" in s and "max(max_deg, d)" in s
+    return Frag(s, "if d is None", "return None", "max(max_deg, d)")
 
 
 def _check_binary(prog, rep, fi, d, arm, env):
@@ -371,6 +371,92 @@ def degree_forms(prog, fi, _other=None):
     return out
 
 
+def _verdict_is_conjunction(prog, rep, lin):
+    """Problem._is_linear_problem answers True exactly when the objective AND every constraint pass is_linear: the
+    function is walked under the four scenarios (objective linear?, the representative constraint linear?) on a cache
+    miss with an objective present; every returned value must equal the conjunction.  Shape-free: early returns, a
+    result local, all(...) over the constraints and helper calls (through the normalised view) are all fine."""
+    from ..scenario import Explorer, TooManyPaths
+
+    UNK = "?"
+
+    def value(e, env, b1, b2):
+        if isinstance(e, ast.Constant) and isinstance(e.value, bool):
+            return e.value
+        if isinstance(e, ast.Name):
+            return env.get(e.id, UNK)
+        if isinstance(e, ast.UnaryOp) and isinstance(e.op, ast.Not):
+            v = value(e.operand, env, b1, b2)
+            return UNK if v == UNK else (not v)
+        if isinstance(e, ast.BoolOp):
+            vs = [value(x, env, b1, b2) for x in e.values]
+            if isinstance(e.op, ast.And):
+                return False if any(v is False for v in vs) else UNK if any(v == UNK for v in vs) else True
+            return True if any(v is True for v in vs) else UNK if any(v == UNK for v in vs) else False
+        if isinstance(e, ast.Compare) and len(e.ops) == 1 and isinstance(e.comparators[0], ast.Constant) and e.comparators[0].value is None:
+            what = src(e.left)
+            if what.endswith("_objective") or what.endswith(".objective"):
+                return isinstance(e.ops[0], (ast.IsNot, ast.NotEq))       # an objective is present
+            if what.endswith("_is_linear_cache"):
+                return isinstance(e.ops[0], (ast.Is, ast.Eq))             # cache miss
+        if isinstance(e, ast.Call):
+            f = dotted(e.func) or ""
+            if f.endswith("is_linear") and e.args:
+                a0 = src(e.args[0])
+                if "objective" in a0:
+                    return b1
+                if a0.endswith(".expr"):
+                    return b2
+                return UNK
+            if f == "all" and e.args and isinstance(e.args[0], (ast.GeneratorExp, ast.ListComp)) and len(e.args[0].generators) == 1:
+                g = e.args[0].generators[0]
+                if src(g.iter) in ("self._constraints", "self.constraints") and not g.ifs:
+                    return value(e.args[0].elt, env, b1, b2)
+                return UNK
+        return UNK
+
+    results = {}
+    undecided = None
+    for b1 in (True, False):
+        for b2 in (True, False):
+            def atom_truth(t, state, b1=b1, b2=b2):
+                v = value(t, state["env"], b1, b2)
+                return None if v == UNK else v
+
+            def on_stmt(st, state, b1=b1, b2=b2):
+                if isinstance(st, (ast.Assign, ast.AnnAssign)) and getattr(st, "value", None) is not None:
+                    tg = st.targets[0] if isinstance(st, ast.Assign) else st.target
+                    if isinstance(tg, ast.Name):
+                        state["env"][tg.id] = value(st.value, state["env"], b1, b2)
+                if isinstance(st, (ast.For, ast.While)):
+                    state["loops"].append(src(st.iter) if isinstance(st, ast.For) else "while")
+
+            ex = Explorer(atom_truth, on_stmt, expand_loop=lambda st: isinstance(st, ast.For) and src(st.iter) in ("self._constraints", "self.constraints"))
+            try:
+                paths = ex.explore(lin.node.body, {"env": {}, "loops": []})
+            except TooManyPaths:
+                rep.undecided("Problem._is_linear_problem: too many paths")
+                return
+            vals = set()
+            for state, term in paths:
+                if isinstance(term, tuple) and term[0] == "return":
+                    v = value(term[1], state["env"], b1, b2) if term[1] is not None else None
+                    vals.add(v)
+                else:
+                    vals.add(None)
+            results[(b1, b2)] = vals
+    wrong = [(k, v) for k, v in results.items() if any(x not in (UNK,) and x != (k[0] and k[1]) for x in v)]
+    unk = [(k, v) for k, v in results.items() if UNK in v]
+    # the constraints must actually be consulted: under (objective linear, constraint not linear) the answer is False
+    if wrong:
+        (b1, b2), v = wrong[0]
+        rep.ob("R04.4", "Problem._is_linear_problem", False, f"the linearity verdict is not the conjunction over the objective and all constraints: with the objective {'linear' if b1 else 'not linear'} and a constraint {'linear' if b2 else 'not linear'} it answers {sorted(map(str, v))}", loc=lin.loc, detail="conjunction")
+    elif unk:
+        rep.undecided(f"Problem._is_linear_problem: verdict not interpretable for scenario(s) {[k for k, _ in unk]}")
+    else:
+        rep.ob("R04.4", "Problem._is_linear_problem", True, "True only after the objective and every constraint passed is_linear (4 scenarios walked)", loc=lin.loc, detail="conjunction")
+
+
 def check(prog, rep):
     for q in ANALYSERS:
         rep.section(check_analyser, prog, rep, prog.func(q))
@@ -385,7 +471,7 @@ def check(prog, rep):
         rep.pin("degree consumers", "R04.4", owner, ok, f"<=> degree is not None and degree <= {bound}" if ok else f"{owner} is not `deg is not None and deg <= {bound}`", loc=fn.loc, detail="threshold")
     deg = E.methods.get("degree")
     s = src(deg.node)
-    ok = "self._degree = result if result is not None else -1" in s and "return None if self._degree == -1 else self._degree" in s
+    ok = Frag(s, "self._degree = result if result is not None else -1", "return None if self._degree == -1 else self._degree")
     rep.pin("degree consumers", "R04.4", "Expression.degree", ok, "per-node cache: -1 is written only for None and read back as None" if ok else "the per-node degree cache does not map None <-> -1 consistently", loc=deg.loc, detail="sentinel")
     uses_switch = any(dotted(c.func) == "compute_degree" for c in calls(deg.node))
     rep.pin("degree consumers", "R04.4", "Expression.degree", uses_switch, "the cached value comes from compute_degree (depth switch)" if uses_switch else "the cached degree is not computed by compute_degree", loc=deg.loc, detail="source")
@@ -422,12 +508,7 @@ def check(prog, rep):
     lin = P.methods.get("_is_linear_problem")
     if lin is None:
         raise AnalysisError("Problem._is_linear_problem not found")
-    s = src(lin.node)
-    obj = "if not is_linear(self._objective)" in s
-    con = any(isinstance(n, ast.For) and src(n.iter) == "self._constraints" and "if not is_linear(constraint.expr)" in src(n) and "return False" in src(n) for n in walk_local(lin.node))
-    trues = [n for n in walk_local(lin.node) if isinstance(n, ast.Return) and isinstance(n.value, ast.Constant) and n.value.value is True]
-    last_true = bool(trues) and all(t.lineno > max(n.lineno for n in walk_local(lin.node) if isinstance(n, ast.For)) for t in trues)
-    rep.pin("degree consumers", "R04.4", "Problem._is_linear_problem", obj and con and last_true, "True only after the objective and every constraint passed is_linear" if obj and con and last_true else "the linearity verdict is not the conjunction over the objective and all constraints", loc=lin.loc, detail="conjunction")
+    _verdict_is_conjunction(prog, rep, lin)
     rep.expect_min("R04.1", 50)
     rep.expect_min("R04.2", 2)
     rep.expect_min("R04.3", 6)
